@@ -315,6 +315,13 @@ pub fn insert_call(q: &mut InsertStatement, c: &J) {
 pub fn update(j: &J) -> UpdateStatement {
     let mut q = UpdateStatement::new();
     for c in j["calls"].as_array().unwrap() {
+        update_call(&mut q, c);
+    }
+    q
+}
+
+pub fn update_call(q: &mut UpdateStatement, c: &J) {
+    {
         let a = c.as_array().unwrap();
         match a[0].as_str().unwrap() {
             "table" => { q.table(tableref(&a[1])); }
@@ -332,12 +339,18 @@ pub fn update(j: &J) -> UpdateStatement {
             k => panic!("update call {k}"),
         }
     }
-    q
 }
 
 pub fn delete(j: &J) -> DeleteStatement {
     let mut q = DeleteStatement::new();
     for c in j["calls"].as_array().unwrap() {
+        delete_call(&mut q, c);
+    }
+    q
+}
+
+pub fn delete_call(q: &mut DeleteStatement, c: &J) {
+    {
         let a = c.as_array().unwrap();
         match a[0].as_str().unwrap() {
             "from_table" => { q.from_table(tableref(&a[1])); }
@@ -353,7 +366,6 @@ pub fn delete(j: &J) -> DeleteStatement {
             k => panic!("delete call {k}"),
         }
     }
-    q
 }
 
 pub fn with_clause(j: &J) -> WithClause {
@@ -503,6 +515,42 @@ fn c15_select(req: &J) -> J {
     json!({"holds": fails.is_empty(), "fails": fails})
 }
 
+/// C15 on INSERT / UPDATE / DELETE (Clone + PartialEq, no take()): clone equality and independence of the copies
+macro_rules! c15_dml {
+    ($build:ident, $call:ident, $req:expr) => {{
+        let req = $req;
+        let base = &req["base"];
+        let mut q = $build(base);
+        let pre = $build(base);
+        let mut fails: Vec<String> = vec![];
+        macro_rules! all { ($s:expr) => { vec![$s.to_string(MysqlQueryBuilder), $s.to_string(PostgresQueryBuilder), $s.to_string(SqliteQueryBuilder)] }; }
+        let mut c = q.clone();
+        if c != pre { fails.push("clone != source".into()); }
+        if all!(&c) != all!(&pre) { fails.push("clone renders differently".into()); }
+        let mut with_extra = $build(base);
+        $call(&mut with_extra, &req["extra"]);
+        if req["c15"].as_str().unwrap() == "clone_then_source" {
+            $call(&mut q, &req["extra"]);
+            if c != pre || all!(&c) != all!(&pre) { fails.push("a later change to the source shows in the clone".into()); }
+            if q != with_extra { fails.push("source after the change differs from the expected statement".into()); }
+        } else {
+            $call(&mut c, &req["extra"]);
+            if q != pre || all!(&q) != all!(&pre) { fails.push("a later change to the clone shows in the source".into()); }
+            if c != with_extra { fails.push("clone after the change differs from the expected statement".into()); }
+        }
+        json!({"holds": fails.is_empty(), "fails": fails})
+    }};
+}
+
+fn c15_dml(req: &J) -> J {
+    match req["base"]["k"].as_str().unwrap() {
+        "insert" => c15_dml!(insert, insert_call, req),
+        "update" => c15_dml!(update, update_call, req),
+        "delete" => c15_dml!(delete, delete_call, req),
+        k => panic!("c15 dml kind {k}"),
+    }
+}
+
 fn c15_window(req: &J) -> J {
     let mut w = window(&req["base"]);
     let pre = window(&req["base"]);
@@ -533,6 +581,7 @@ pub fn handle(op: &str, req: &J) -> J {
         }
         "c15_select" => c15_select(req),
         "c15_window" => c15_window(req),
+        "c15_dml" => c15_dml(req),
         "build_only" => {
             // run the builder calls without rendering (C10: outcomes of values()/select_from())
             LOG.with(|l| l.borrow_mut().clear());
